@@ -29,7 +29,7 @@ Record jdvariant := {
   jv_record_with_data : bool;    (* the tracking reader notes the source's error also when it came with data *)
   jv_guard : nat -> bool;        (* passes -> the empty-pass guard is installed on a source that can be sought *)
   jv_defers_eof : bool           (* passGuard.Read hands data that comes together with io.EOF out WITHOUT the io.EOF: the
-                                    end of the source is reported by the next read (repair PENDING-COMMIT) *)
+                                    end of the source is reported by the next read (repair c78f643) *)
 }.
 Definition jd_tree : jdvariant := {| jv_record_with_data := false; jv_guard := fun _ => true; jv_defers_eof := true |}.
 Definition jd_current : jdvariant := jd_tree.
